@@ -498,7 +498,7 @@ func (s *sess) probePKCE(i int) {
 	if r.IntN(2) == 0 {
 		client = s.w.pub
 	}
-	verifier := fmt.Sprintf("verifier-%06d-abcdefghijklmnopqrstuvwxyz-0123456789", r.IntN(1e6))
+	verifier := opdrv.Verifier(r) // legal lengths incl. the limits 43 and 128
 	f := flowReq{client: client, scope: "openid", state: "pk", nonce: "pk-n", challenge: opdrv.S256(verifier), challengeMethod: "S256"}
 	adv := "not-advertised"
 	if advertised {
@@ -526,7 +526,7 @@ func (s *sess) probePKCE(i int) {
 		f.verifier = ""
 		switch bad {
 		case "wrong":
-			f.verifier = "wrong-" + verifier
+			f.verifier = opdrv.OtherVerifier(verifier)
 		case "challenge-string":
 			f.verifier = f.challenge
 		}
@@ -590,8 +590,8 @@ func (s *sess) probePKCEWithRequestObject() {
 		return
 	}
 	r := s.run.CaseRand(12, s.w.c.Idx)
-	v1 := fmt.Sprintf("object-verifier-%06d-abcdefghijklmnopqrstuvwxyz-0123", r.IntN(1e6))
-	v2 := fmt.Sprintf("query-verifier-%06d-ABCDEFGHIJKLMNOPQRSTUVWXYZ-4567", r.IntN(1e6))
+	v1 := opdrv.Verifier(r)
+	v2 := opdrv.Verifier(r)
 	c1, c2 := opdrv.S256(v1), opdrv.S256(v2)
 	type placement struct {
 		name                       string
@@ -599,11 +599,11 @@ func (s *sess) probePKCEWithRequestObject() {
 		wrong                      string
 	}
 	placements := []placement{
-		{"query-only", c1, "S256", "", "", "wrong-" + v1},
-		{"object-only", "", "", c1, "S256", "wrong-" + v1},
-		{"both-equal", c1, "S256", c1, "S256", "wrong-" + v1},
+		{"query-only", c1, "S256", "", "", opdrv.OtherVerifier(v1)},
+		{"object-only", "", "", c1, "S256", opdrv.OtherVerifier(v1)},
+		{"both-equal", c1, "S256", c1, "S256", opdrv.OtherVerifier(v1)},
 		{"both-different", c2, "S256", c1, "S256", v2},                    // the object supersedes: the query's own verifier is a wrong one
-		{"both-query-says-plain", c1, "plain", c1, "S256", "wrong-" + v1}, // the object's method supersedes: the challenge string is not a verifier
+		{"both-query-says-plain", c1, "plain", c1, "S256", opdrv.OtherVerifier(v1)}, // the object's method supersedes: the challenge string is not a verifier
 	}
 	for _, p := range placements {
 		var extra map[string]any
